@@ -527,14 +527,75 @@ def rule_ping(ctx, tier):
                 if a and any(isinstance(c, ast.Call) and is_self_attr(c.func, "stop_thread") for c in ast.walk(f)):
                     stops.add(a[0])
     ctx.check("C16.ping", {EV_DISC, EVD} <= stops, w, "keep-alive stopped on %s" % sorted(stops), "the ping thread must be stopped on the disconnect request and on the disconnected event", "stopped on both events")
+    # the keep-alive thread's loop, abstractly executed for three rounds (the stop flag is raised by the environment after the
+    # third send): every round records a ping as outstanding and then sends THAT ping, and no two rounds use the same id -
+    # waitPong keys its bookkeeping by id, so a repeated id never adds up to "two pings unanswered" and a dead connection
+    # is never closed
+    from ..absint import NeedAtom as _NA, Budget as _BU, DomainGrew as _DG, C_TRUE as _CT, C_FALSE as _CF
     pt = repo.cls(IQL, "YowPingThread")
     run = pt.methods["run"]
-    g = CFG(run)
-    waits = [n_ for n_ in g.live if n_.stmt is not None and n_.kind == "stmt" and "waitPong" in unparse(n_.stmt)]
-    sends = [n_ for n_ in g.live if n_.stmt is not None and n_.kind in ("stmt",) and "sendIq" in unparse(n_.stmt)]
-    ok = len(waits) == 1 and len(sends) == 1 and g.dominates(waits[0], sends[0])
-    same = ok and "ping.getId()" in unparse(waits[0].stmt) and "(ping)" in unparse(sends[0].stmt)
-    ctx.check("C16.ping", bool(ok and same), where(IQL, "YowPingThread.run", run.lineno), "waitPong(id) precedes the send of the same ping", "the ping must be recorded as outstanding before it is sent (its pong can arrive at once)", "recorded, then sent")
+    wr = where(IQL, "YowPingThread.run", run.lineno)
+
+    def run_loop(cell, domains):
+        state = {"sends": 0, "thread": None}
+
+        def send_iq(itp, recv, a, k, env, d, e):
+            state["sends"] += 1
+            if state["sends"] >= 3 and state["thread"] is not None:
+                for f_ in list(state["thread"].fields):
+                    if f_.endswith("_stop"):
+                        state["thread"].fields[f_] = _CT
+            return C_NONE
+        it = Interp(repo, cell, domains, hooks={"ext:layer.sendIq": send_iq})
+        it.loop_unroll = 5
+        o = Obj(pt)
+        state["thread"] = o
+        o.fields.update({"_layer": ("ext", "layer", []), "_interval": ("c", 1), "_stop": _CF, "_YowPingThread__logger": ("ext", "logger", []), "name": ("c", "YowPing")})
+        raised = None
+        try:
+            it.call_function(run, pt, ("obj", o), [], {}, depth=0)
+        except _Raise as r:
+            raised = r.text
+        seq = []
+        for e in flat_effects(it.effects):
+            if e[0] == "CALL" and e[1] in ("layer.waitPong", "layer.sendIq"):
+                seq.append((e[1].split(".")[-1], e[2][0] if e[2] else None))
+        return {"seq": seq, "raised": raised}, it
+    try:
+        cells = enumerate_cells(run_loop, {}, max_cells=64)
+    except (_BU, _NA, _DG) as x:
+        cells = None
+        ctx.undecided("C16.ping", wr, "three rounds of the keep-alive loop", "could not be executed: %s" % (x,))
+    if cells is not None:
+        bad = []
+        n_rounds = 0
+        for cell, r in cells:
+            if r["raised"]:
+                bad.append("the loop raises %s" % r["raised"][:60])
+                continue
+            seq = r["seq"]
+            ids = []
+            i = 0
+            while i < len(seq):
+                if seq[i][0] != "waitPong" or i + 1 >= len(seq) or seq[i + 1][0] != "sendIq":
+                    bad.append("round %d: a ping is %s" % (len(ids) + 1, "sent without having been recorded as outstanding first (its pong can arrive at once)" if seq[i][0] == "sendIq" else "recorded as outstanding but not sent"))
+                    break
+                pid, ent = seq[i][1], seq[i + 1][1]
+                eid = None
+                if ent is not None and ent[0] == "obj":
+                    try:
+                        eid = Interp(repo, {}, {}).method_call(ent, "getId", [], {}, {"@module": pt.module, "@owner": None}, 0, None)
+                    except Exception:
+                        eid = None
+                if eid is None or eid != pid:
+                    bad.append("round %d: the id recorded as outstanding (%s) is not the id of the ping that is sent (%s)" % (len(ids) + 1, show(pid)[:30], show(eid)[:30] if eid else "?"))
+                ids.append(pid)
+                i += 2
+            n_rounds = max(n_rounds, len(ids))
+            if len(ids) >= 2 and len({repr(x) for x in ids}) != len(ids):
+                bad.append("the same ping id (%s) is used in %d rounds: the bookkeeping is keyed by id, two unanswered pings never add up and a dead connection is never closed" % (show(ids[0])[:30], len(ids)))
+        ctx.check("C16.ping", not bad and n_rounds >= 2, wr, "each round: record the ping's id, then send that ping; a fresh id per round",
+                  "; ".join(sorted(set(bad))[:2]) or "fewer than two rounds could be followed", "%d round(s): recorded, then sent; ids pairwise different" % n_rounds)
     # the pong callback clears by the ping's id
     op = repo.method(IQL, "YowIqProtocolLayer", "onPong")
     ok = any(isinstance(c, ast.Call) and is_self_attr(c.func, "gotPong") and unparse(c.args[0]).endswith(".getId()") for c in ast.walk(op))
